@@ -69,6 +69,37 @@ CHECKS = {
 }
 
 
+M64 = (1 << 64) - 1
+
+
+def _splitmix(st):
+    st = (st + 0x9E3779B97F4A7C15) & M64
+    z = st
+    z = ((z ^ (z >> 30)) * 0xBF58476D1CE4E5B9) & M64
+    z = ((z ^ (z >> 27)) * 0x94D049BB133111EB) & M64
+    return st, z ^ (z >> 31)
+
+
+def run_seed(base, i):
+    """Same derivation as vsim::run_seed (sim/core/prng.h)."""
+    st = (base * 0xD1342543DE82EF95 + i) & M64
+    st, _ = _splitmix(st)
+    st, z = _splitmix(st)
+    return z
+
+
+def crash_class(rc, err):
+    """Violation class of a process that died inside a run (signal / sanitizer deadly signal), else None."""
+    san = classify_sanitizer(rc, err)
+    if san:
+        return san[1]
+    if rc is not None and rc < 0 and rc != -999:
+        return "crash/signal%d" % (-rc)
+    if rc == 134:
+        return "crash/abort"
+    return None
+
+
 def log(*a):
     print(*a, file=sys.stderr, flush=True)
 
@@ -107,12 +138,18 @@ def ensure_built(flavours):
 
 
 # --------------------------------------------------------------------------- running
+STRING_KEYS = ("evhash", "hist", "fuhash", "seed", "combos", "groups", "class", "oracle", "kind", "dev_deciles", "role")
+
+
 def parse_result(line):
     d = {}
     for tok in line.split()[1:]:
         if "=" not in tok:
             continue
         k, v = tok.split("=", 1)
+        if k in STRING_KEYS or k.startswith("fuhash_") or k.startswith("d.") and not v.replace(".", "").isdigit():
+            d[k] = v
+            continue
         try:
             d[k] = int(v)
         except ValueError:
@@ -153,8 +190,10 @@ def run_chunk(check, flavour, base, lo, hi, thorough, timeout, mode=None):
     return dict(rc=rc, results=results, stderr=err, lo=lo, hi=hi, flavour=flavour, cmd=cmd)
 
 
-def run_single(check, flavour, seed, thorough, timeout, emit=None, events=None, mode=None):
+def run_single(check, flavour, seed, thorough, timeout, emit=None, events=None, mode=None, dry=False):
     cmd = [binary(flavour), "--check", check, "--seed", str(seed)]
+    if dry:
+        cmd.append("--dry")
     if thorough:
         cmd.append("--thorough")
     if emit:
@@ -209,6 +248,10 @@ def classify_sanitizer(rc, err):
             return "ubsan", "ubsan/%s:%s/%s" % (os.path.basename(m.group(1)), m.group(2), m.group(3)[:60].replace(" ", "_"))
         return "ubsan", "ubsan/unknown"
     return None
+
+
+def san_is_harness(cls, err):
+    return cls.startswith("tsan/") and harness_only_tsan(err)
 
 
 def harness_only_tsan(err):
@@ -285,9 +328,8 @@ class Tester:
         got = None
         if res is not None and res.get("status") == "violation":
             got = res.get("class")
-        san = classify_sanitizer(rc, err)
-        if san and got is None:
-            got = san[1]
+        if got is None:
+            got = crash_class(rc, err)
         if got is not None and same_class(got, self.cls):
             ok = True
         self.cache[key] = (ok, res, detail, err, rc)
@@ -422,11 +464,13 @@ def handle_candidate(prop, cand, thorough, tmpdir):
             if ln.startswith("RESULT "):
                 res = parse_result(ln)
         c = res.get("class") if res and res.get("status") == "violation" else None
-        san = classify_sanitizer(rc, err)
-        if c is None and san:
-            c = san[1]
+        if c is None:
+            c = crash_class(rc, err)
         classes.append(c)
         hashes.append((res or {}).get("evhash", (res or {}).get("hist", "")))
+        if not os.path.exists(ppath):
+            # the process died before it could write its plan: have the plan generated without executing it
+            run_single(prop, flavour, seed, thorough, tmo, emit=ppath, mode=cand.get("_mode"), dry=True)
         plans.append(ppath if os.path.exists(ppath) else None)
     if classes[0] is None or classes[0] != classes[1] or hashes[0] != hashes[1] or not same_class(classes[0], cls0):
         return dict(kind="nondeterministic", seed=seed, classes=classes, hashes=hashes, first=cls0)
@@ -462,6 +506,11 @@ def handle_candidate(prop, cand, thorough, tmpdir):
     if not (ok1 and ok2):
         return dict(kind="nondeterministic", seed=seed, classes=classes, first="minimised plan does not replay")
     san = classify_sanitizer(rc1, err1)
+    if not san and not detail1 and crash_class(rc1, err1):
+        detail1 = "process died with %s while executing the plan; stderr tail: %s" % (crash_class(rc1, err1), err1[-600:].replace("\n", " | "))
+    if san and not detail1:
+        keep = [ln.strip() for ln in err1.splitlines() if ln.startswith("SUMMARY:") or "Location is" in ln or ln.startswith("WARNING: ") or ln.startswith("==") and "ERROR" in ln]
+        detail1 = " | ".join(keep[:6])
     rep = dict(
         version=1, property=prop, flavour=flavour, seed=seed, thorough=bool(thorough),
         violation=dict(oracle=(res1 or {}).get("oracle", san[0] if san else "?"), cls=cls0,
@@ -647,30 +696,51 @@ def do_check(prop, tier):
     t_run = time.time()
     wall_cap = float(os.environ.get("VERIF_WALL_CAP", "0") or 0)
     with cf.ThreadPoolExecutor(max_workers=NCPU) as ex:
-        futs = [ex.submit(run_chunk, prop, f, seed, lo, hi, thorough, tmo) for (f, lo, hi) in jobs]
-        for fu in cf.as_completed(futs):
-            ch = fu.result()
-            got = ch["results"]
-            results.extend(got)
-            for r in got:
-                if r.get("status") == "violation":
-                    candidates.append(r)
-                elif r.get("status") != "ok":
-                    harness_errors.append((r, ch["stderr"][-2000:]))
-            san = classify_sanitizer(ch["rc"], ch["stderr"])
-            expected = ch["hi"] - ch["lo"]
-            if san:
-                if san[0] == "tsan" and harness_only_tsan(ch["stderr"]):
-                    harness_errors.append((dict(seed=None, status="tsan report in harness frames only"), ch["stderr"][-3000:]))
-                else:
-                    # attribute to the run: single-run chunks carry their seed in the RESULT line; otherwise re-run singly later
-                    bad = [r for r in got if r.get("status") not in ("ok", "violation")]
-                    seed_of = (bad[0] if bad else got[-1]).get("seed") if got else None
-                    candidates.append(dict(seed=seed_of, status="violation", _flavour=ch["flavour"], _san_class=san[1],
-                                           _chunk=(ch["lo"], ch["hi"]), _stderr=ch["stderr"][-4000:]))
-            elif len(got) < expected or ch["rc"] not in (0, 1):
-                harness_errors.append((dict(seed=None, status="process rc=%s produced %d/%d results" % (ch["rc"], len(got), expected),
-                                            cmd=" ".join(ch["cmd"])), ch["stderr"][-3000:]))
+        pending = {ex.submit(run_chunk, prop, f, seed, lo, hi, thorough, tmo): (f, lo, hi) for (f, lo, hi) in jobs}
+        while pending:
+            done, _ = cf.wait(list(pending), return_when=cf.FIRST_COMPLETED)
+            for fu in done:
+                f, lo, hi = pending.pop(fu)
+                ch = fu.result()
+                got = ch["results"]
+                results.extend(got)
+                for r in got:
+                    if r.get("status") == "violation":
+                        candidates.append(r)
+                    elif r.get("status") != "ok":
+                        harness_errors.append((r, ch["stderr"][-2000:]))
+                expected = hi - lo
+                cc = crash_class(ch["rc"], ch["stderr"])
+                complete = len(got) >= expected
+                if cc and san_is_harness(cc, ch["stderr"]):
+                    harness_errors.append((dict(seed=None, status="sanitizer report in harness frames only"), ch["stderr"][-3000:]))
+                elif cc and complete and expected == 1:
+                    # single-run process that finished its run but carries a sanitizer report (race, UB with recovery, ...)
+                    candidates.append(dict(seed=got[0].get("seed"), status="violation", _flavour=f, _san_class=cc, steps=got[0].get("steps", 0)))
+                elif cc or not complete:
+                    if ch["rc"] == -999:
+                        harness_errors.append((dict(seed=None, status="timeout", cmd=" ".join(ch["cmd"])), ""))
+                    elif expected == 1:
+                        if cc:
+                            candidates.append(dict(seed=str(run_seed(seed, lo)), status="violation", _flavour=f, _san_class=cc, steps=0))
+                        else:
+                            harness_errors.append((dict(seed=None, status="process rc=%s produced no result" % ch["rc"], cmd=" ".join(ch["cmd"])), ch["stderr"][-3000:]))
+                    else:
+                        # a multi-run process died or reported: re-run the first unfinished run alone, and the rest as a new chunk
+                        bad = lo + len(got) if not complete else lo
+                        if complete:
+                            # report without death in a multi-run process: re-run every run of the chunk singly
+                            for i in range(lo, hi):
+                                pending[ex.submit(run_chunk, prop, f, seed, i, i + 1, thorough, tmo)] = (f, i, i + 1)
+                            # drop the results of this chunk: they will be produced again
+                            for r in got:
+                                results.remove(r)
+                                if r in candidates:
+                                    candidates.remove(r)
+                        else:
+                            pending[ex.submit(run_chunk, prop, f, seed, bad, bad + 1, thorough, tmo)] = (f, bad, bad + 1)
+                            if bad + 1 < hi:
+                                pending[ex.submit(run_chunk, prop, f, seed, bad + 1, hi, thorough, tmo)] = (f, bad + 1, hi)
     wall = time.time() - t_run
     # ---- candidates -> gate / minimise -------------------------------------------------
     outcomes = []
